@@ -452,10 +452,21 @@ pub mod asyncx {
                 "wait" => (acall(&ctx, op, || ad.wait()).is_some(), json!(false)),
                 "wait_without_tl" => (acall(&ctx, op, || ad.wait_without_tl()).is_some(), json!(false)),
                 "world" => (acall(&ctx, op, || { let _ = ad.world(); }).is_some(), json!(false)),
+                // deprecated aliases of world / world_mut
+                #[allow(deprecated)]
+                "res" => (acall(&ctx, "world", || { let _ = ad.res(); }).is_some(), json!(false)),
+                #[allow(deprecated)]
+                "mut_res" => (acall(&ctx, "world_mut", || { let _ = ad.mut_res(); }).is_some(), json!(false)),
                 "world_mut" => (acall(&ctx, op, || { let _ = ad.world_mut(); }).is_some(), json!(false)),
                 _ => (acall(&ctx, "setup", || ad.setup()).is_some(), json!(false)),
             };
-            ctx.ev(json!({"ev":"acall","op":if op == "setup" || ["dispatch","running","wait","wait_without_tl","world","world_mut"].contains(&op.as_str()) {op.as_str()} else {"setup"},
+            let opname = match op.as_str() {
+                "res" => "world",
+                "mut_res" => "world_mut",
+                x if ["dispatch", "running", "wait", "wait_without_tl", "world", "world_mut"].contains(&x) => x,
+                _ => "setup",
+            };
+            ctx.ev(json!({"ev":"acall","op":opname,
                           "phase":"end","out": if out {"ok"} else {"panic"},"ret":ret}));
             if op == "dispatch" {
                 // after a dispatch everything is held until the next blocking call
